@@ -28,6 +28,21 @@ class SymStr:
         return self.name
 
 
+def utf8_len(c):
+    """UTF-8 byte length of a char value (concrete or symbolic)."""
+    if is_sym(c):
+        return z3.If(c < 0x80, 1, z3.If(c < 0x800, 2, z3.If(c < 0x10000, 3, 4)))
+    return 1 if c < 0x80 else 2 if c < 0x800 else 3 if c < 0x10000 else 4
+
+
+@dataclass(frozen=True)
+class MatchesIt:
+    """str::matches(char) iterator: remaining chars and the needle."""
+    s: object
+    pos: int
+    needle: object
+
+
 @dataclass(frozen=True)
 class CharsIt:
     s: object
@@ -117,6 +132,61 @@ def m_opt_ne(ex, st, args, dest_ty, fname):
     return b_not(_opt_eq(ex.deref(args[0], st), ex.deref(args[1], st)))
 
 
+def m_str_len(ex, st, args, dest_ty, fname):
+    cs = str_chars(ex.deref(args[0], st))
+    total = 0
+    for c in cs:
+        total = total + utf8_len(c)
+    return z3.simplify(total) if is_sym(total) else total
+
+
+def m_str_is_empty(ex, st, args, dest_ty, fname):
+    return len(str_chars(ex.deref(args[0], st))) == 0
+
+
+def m_chars_count(ex, st, args, dest_ty, fname):
+    it = args[0]
+    return len(str_chars(it.s)) - it.pos
+
+
+def m_str_matches_char(ex, st, args, dest_ty, fname):
+    return MatchesIt(ex.deref(args[0], st), 0, args[1])
+
+
+def m_matches_count(ex, st, args, dest_ty, fname):
+    it = args[0]
+    cs = str_chars(it.s)[it.pos:]
+    total = 0
+    for c in cs:
+        eq = (c == it.needle)
+        total = total + (z3.If(eq, 1, 0) if is_sym(eq) else int(eq))
+    return z3.simplify(total) if is_sym(total) else total
+
+
+def m_str_contains_char(ex, st, args, dest_ty, fname):
+    cs = str_chars(ex.deref(args[0], st))
+    r = False
+    for c in cs:
+        r = b_or(r, c == args[1]) if is_sym(c == args[1]) else (r or bool(c == args[1]))
+    return r
+
+
+def m_str_starts_with_char(ex, st, args, dest_ty, fname):
+    cs = str_chars(ex.deref(args[0], st))
+    if not cs:
+        return False
+    r = cs[0] == args[1]
+    return z3.simplify(r) if is_sym(r) else bool(r)
+
+
+def m_str_ends_with_char(ex, st, args, dest_ty, fname):
+    cs = str_chars(ex.deref(args[0], st))
+    if not cs:
+        return False
+    r = cs[-1] == args[1]
+    return z3.simplify(r) if is_sym(r) else bool(r)
+
+
 def M(pattern, fn):
     return (re.compile(pattern), fn)
 
@@ -124,6 +194,14 @@ def M(pattern, fn):
 COMMON = [
     M(r"^core::str::<impl str>::chars$", m_str_chars),
     M(r"^<Chars<'_> as Iterator>::peekable$", m_peekable),
+    M(r"^core::str::<impl str>::len$", m_str_len),
+    M(r"^core::str::<impl str>::is_empty$", m_str_is_empty),
+    M(r"^<Chars<'_> as Iterator>::count$", m_chars_count),
+    M(r"^core::str::<impl str>::matches::<char>$", m_str_matches_char),
+    M(r"^<Matches<'_, char> as Iterator>::count$", m_matches_count),
+    M(r"^core::str::<impl str>::contains::<char>$", m_str_contains_char),
+    M(r"^core::str::<impl str>::starts_with::<char>$", m_str_starts_with_char),
+    M(r"^core::str::<impl str>::ends_with::<char>$", m_str_ends_with_char),
     M(r"^Peekable::<Chars<'_>>::peek$", m_peek),
     M(r"^<Peekable<Chars<'_>> as Iterator>::next$", m_peek_next),
     M(r"^<Peekable<Chars<'_>> as Clone>::clone$", m_clone),
